@@ -109,7 +109,7 @@ def build(ctx):
         # --- encode side: symbolic lengths -------------------------------------------------
         text, cap, nargs = harness_text(tags)
         h = ctx.write("gen/h_%s.c" % safe, text)
-        alens = [None] if len(tags) <= 1 else ([1 + (sum(map(ord, tags)) % 4)] if not thorough else [1, 2, 3, 4])
+        alens = [None] if len(tags) <= 1 else ([1 + (sum(map(ord, tags)) % 4)] if not thorough else [1 + (sum(map(ord, tags)) % 4), 1 + ((sum(map(ord, tags)) + 2) % 4)])
         for part, alen in [(p_, a_) for p_ in (1, 4, 5) for a_ in alens]:
             if part == 5 and ("[" in tags or "]" in tags):
                 continue
@@ -124,9 +124,11 @@ def build(ctx):
         # --- decode side: concrete lengths, symbolic contents ------------------------------
         slots = G.var_slots(tags)
         combos = list(itertools.product(*[range(0, SL + 1) for _ in slots]))
-        limit = 36 if not thorough else 216
+        limit = 36
         if len(combos) > limit:
-            combos = rnd.sample(combos, 8 if not thorough else 24)
+            combos = rnd.sample(combos, 8 if not thorough else 16)
+        elif thorough and len(combos) > 12 and len(tags) == 2 and not all(c in "ifhdmsbT[]" for c in tags):
+            combos = rnd.sample(combos, 12)   # non-representative pairs: sample the length combinations
         for ci, combo in enumerate(combos):
             lens = dict(zip(slots, combo))
             conc = len(tags) > 1
